@@ -293,6 +293,9 @@ def body(col: Collector, case):
         if "y" in sA.dag and "noise_std" in sA.dag:
             n_obs_i = float(sA["y"].weight[i].sum())
             mag = n_obs_i * (float(tval(sA["noise_std"]).double().log().abs().max()) + 1.0)
+        mag_all = 0.0
+        if "y" in sA.dag and "noise_std" in sA.dag:
+            mag_all = float(sA["y"].weight.sum(dim=tuple(range(1, sA["y"].weight.ndim))).max()) * (float(tval(sA["noise_std"]).double().log().abs().max()) + 1.0)
         for t, vA in termsA.items():
             v1 = tval(s1[t])
             atol = 1e-6 + (1e-5 * (mag + float(vA[i].double().abs().sum())) if t.startswith("nll_attach") and bool(torch.isfinite(vA[i]).all()) else 0.0)
@@ -327,7 +330,9 @@ def body(col: Collector, case):
             vP = tval(sP[t])
             # vectorised element-wise kernels may round differently by an ulp depending on the position in the vector
             eps = 1.2e-7 if vA.dtype == torch.float32 else 2.3e-16
-            if not torch.allclose(vA[perm].double(), vP.double(), rtol=64 * eps, atol=64 * eps, equal_nan=True):
+            # (attachment terms: entries of both signs may cancel, the rounding error is relative to their summed magnitudes)
+            atol_p = 64 * eps * (1.0 + (mag_all if t.startswith("nll_attach") else 0.0))
+            if not torch.allclose(vA[perm].double(), vP.double(), rtol=64 * eps, atol=atol_p, equal_nan=True):
                 raise Fail(f"permute:{t}-not-permuted", vP.tolist(), vA[perm].tolist())
         for tot, per in TOTALS:
             if tot in sA.dag:
